@@ -26,6 +26,11 @@ def lower_ascii(c):
     return z3.And(c >= 97, c <= 122)
 
 
+def ascii_clean(c):
+    """printable ASCII other than blank and a-z: not whitespace and fixed under upper() (unicode_facts F4)"""
+    return z3.Or(z3.And(c >= 33, c <= 96), z3.And(c >= 123, c <= 126))
+
+
 def fix_facts(c):
     """consequences of Fix(c) made available to the solver"""
     return z3.Implies(Fix(c), z3.And(c >= 0, c <= 0x10FFFF, z3.Not(ws(c)), z3.Not(lower_ascii(c))))
@@ -86,7 +91,7 @@ def clean_contract(I, s):
     if isinstance(s, SDecStr):
         s = I.materialize(s)
     if isinstance(s, SStr):
-        if all(I.entails(Fix(c)) for c in s.chars if not z3.is_int_value(c)) and \
+        if all(I.entails(z3.Or(Fix(c), ascii_clean(c))) for c in s.chars if not z3.is_int_value(c)) and \
                 all(_fixed_const(c) for c in s.chars if z3.is_int_value(c)):
             return s
         raise Unsupported("clean() of a vector not known to be clean")
@@ -112,6 +117,7 @@ def fresh_clean_text(I, name, max_len=None):
     seen = {}
 
     def at(i):
+        i = z3.simplify(i) if z3.is_expr(i) else z3.IntVal(i)
         t = fn(i)
         key = t.get_id()
         if key not in seen:
